@@ -13,7 +13,7 @@ WS_CUTS = {
 }
 WS_ASSUMPTIONS = [
     "SCHED: goroutines (both pumps, writers, closer, peer) are interleaved at synchronisation points; delay-bounded exploration: every schedule that deviates at most D times from round-robin is explored (Go semantics of mutex, Once, buffered/unbuffered channels, close, select)",
-    "ENV: the gorilla *websocket.Conn is cut to harness functions: ReadMessage blocks until the peer thread provides a frame / error or Close is called, WriteMessage fails at a symbolic k-th call and after Close, Close is recorded; the ping ticker never fires within the run",
+    "ENV: the gorilla *websocket.Conn is cut to harness functions: ReadMessage blocks until the peer thread provides a frame / error or Close is called, WriteMessage fails at a symbolic k-th call and after Close, Close is recorded; the ping ticker fires only where a scenario says so (C13: one tick with a failing PING write)",
     "the data processor calls CloseDataConnection(4001, \"\") from ReportConnectionError, as ShipConnection does",
     "native replay uses a real gorilla connection over a loopback socket with an injected write failure; schedule-dependent findings are reproduced by stress (many attempts), a finding that does not reproduce natively is logged as spurious",
 ]
